@@ -326,22 +326,25 @@ The parameters of this process are described within the [Stack.IsEqual]
 notes.
 */
 func (r Condition) IsEqual(o any) (err error) {
-	if r.IsInit() {
-		// handle condition/condition-alias assertion
-		// and exit immediately if it fails due to a
-		// bad type, or uninitialized input for o.
-		if s, ok := conditionTypeAliasConverter(o); ok {
-			if fn := r.condition.cfg.eqf; fn != nil {
-				// use the user-authored closure assertion
-				err = fn(r, o)
-			} else {
-				// use default assertion
-				err = r.condition.isEqual(s.condition)
-			}
-		}
+	if !r.IsInit() {
+		return errorf("Not initialized")
 	}
 
-	return
+	// handle condition/condition-alias assertion
+	// and exit immediately if it fails due to a
+	// bad type, or uninitialized input for o.
+	if s, ok := conditionTypeAliasConverter(o); ok {
+		if fn := r.condition.cfg.eqf; fn != nil {
+			// use the user-authored closure assertion
+			err = fn(r, o)
+		} else {
+			// use default assertion
+			err = r.condition.isEqual(s.condition)
+		}
+		return
+	}
+
+	return errorf("Cannot perform equality assertion; bad input")
 }
 
 func (r *condition) isEqual(o *condition) error {
